@@ -52,7 +52,8 @@ theorem C09_claims_meaning (c : Cfg) (now : Int) (tok : TokenFacts) :
   · unfold issOk
     simp
 
-/-- Every request that is not accepted is answered `401` by the middleware itself and the
+/-- Middleware level (server level: `C09_reject_401_partial`).  Every request that reaches
+the middleware and is not accepted is answered `401` by the middleware itself and the
 rest of the chain (`c.Next()`) does not run — for the verifiers `server.go` can build
 (`MTCfg.wf`: a verifier without any key is never consulted). -/
 theorem C09_reject_401 (facts : String → TokenFacts) (m : MTCfg) (hwf : m.wf) (now : Int) (r : Req) :
@@ -195,6 +196,71 @@ theorem C09_chain_servers (tbl : List Gin.GEv)
   · have := C09_chain_proxy; rw [h] at this; simpa using this
   · have := C09_chain_upstream; rw [h] at this; simpa using this
   · have := C09_chain_admin; rw [h] at this; simpa using this
+
+/-
+FULL STATEMENT (does NOT hold for the code, see `C09_tsr_redirect_counterexample` and
+KNOWN_FINDINGS F7 `redirect-before-auth`):
+
+  on each of the three servers built with a verifier, for every method and path, a request
+  that the middleware does not accept is answered `401` and no handler runs:
+    ∀ method path, (∀ t, authorize facts m now r ≠ .accept t) →
+      ∃ reason, respond engine authHandler (denyOf (authorize facts m now r)) method path = .aborted 401 reason
+
+What is missing: gin's `RedirectTrailingSlash` (on by default, `gin.New()`) answers a path that
+matches no route but whose trailing-slash sibling does with 301/307 inside
+`handleHTTPRequest`, before any handler of any chain — so before the auth middleware.  No
+handler runs, but the answer is not 401 and it tells an unauthenticated client that the
+sibling path is routed.  The proved part below carries exactly that hypothesis.
+-/
+
+/-- Server level, partial.  On each of the three real servers built with a verifier (for
+every setting of the other constructor guards) and for the verifiers `server.go` builds: a
+request the middleware does not accept, **whose path is not answered by gin's
+trailing-slash redirect**, is answered `401` by the middleware and nothing after the
+middleware runs — whether the path is a registered route (any method) or falls to the
+no-route chain (the proxy's HTTP route, the default 404). -/
+theorem C09_reject_401_partial (tbl : List Gin.GEv)
+    (htbl : Gin.proxyTable = some tbl ∨ Gin.upstreamTable = some tbl ∨ Gin.adminFullTable = some tbl)
+    (on : String → Bool) (hon : on Gin.authGuard = true)
+    (facts : String → TokenFacts) (m : MTCfg) (hwf : m.wf) (now : Int) (r : Req)
+    (hrej : ∀ t, authorize facts m now r ≠ .accept t) (method path : String)
+    (hnotsr : ∀ c, Gin.dispatch (Gin.build (Gin.enabled on tbl)) method path ≠ .redirect c) :
+    ∃ reason, Gin.respond (Gin.build (Gin.enabled on tbl)) Gin.authHandler
+      (denyOf (authorize facts m now r)) method path = .aborted 401 reason := by
+  obtain ⟨P, hroutes, rest, hnr⟩ := C09_chain_servers tbl htbl on hon
+  rcases C09_reject_401 facts m hwf now r with ⟨t, ht⟩ | ⟨reason, hr, _⟩
+  · exact absurd ht (hrej t)
+  · refine ⟨reason, ?_⟩
+    have hmem : ∀ chain : List Gin.H, (∃ a b, chain = P ++ [Gin.authHandler] ++ a ++ b) →
+        Gin.runChain Gin.authHandler (denyOf (authorize facts m now r)) chain = .aborted 401 reason := by
+      intro chain hex
+      obtain ⟨a, b, hc⟩ := hex
+      have hm : Gin.authHandler ∈ chain := by
+        rw [hc]; simp
+      simp [Gin.runChain, hm, hr, denyOf]
+    unfold Gin.respond
+    cases hd : Gin.dispatch (Gin.build (Gin.enabled on tbl)) method path with
+    | redirect c => exact absurd hd (hnotsr c)
+    | route rt ps =>
+      obtain ⟨mid, h, hc⟩ := hroutes rt (Gin.dispatch_route hd)
+      exact hmem _ ⟨mid, [h], hc⟩
+    | noRoute chain =>
+      rw [Gin.dispatch_noRoute hd]
+      exact hmem _ ⟨rest, _, hnr⟩
+
+/-- The hypothesis of `C09_reject_401_partial` cannot be dropped: on the **regenerated**
+tables of `admin.NewServer` and `upstream.NewServer`, with the verifier configured and a
+request without any token (the middleware would answer 401 "missing authorization"),
+`GET /debug/pprof` and `GET /piko/v1/upstream/ep/` are answered by the trailing-slash redirect
+(301), not by the middleware.  (Witness on the real servers: corpus/auth/routes.ops.) -/
+theorem C09_tsr_redirect_counterexample :
+    ((Gin.adminTableFor []).map fun t =>
+      Gin.respond (Gin.build (Gin.enabled (fun g => g = Gin.authGuard) t)) Gin.authHandler
+        (some (401, "missing authorization")) "GET" "/debug/pprof") = some (.redirect 301) ∧
+    (Gin.upstreamTable.map fun t =>
+      Gin.respond (Gin.build (Gin.enabled (fun g => g = Gin.authGuard) t)) Gin.authHandler
+        (some (401, "missing authorization")) "GET" "/piko/v1/upstream/ep/") = some (.redirect 301) := by
+  decide
 
 /-! ## Non-vacuity -/
 
